@@ -748,7 +748,7 @@ func (w *World) DeleteAccountMeta(l *LState, addr, key string, dry bool) ErrKind
 
 // ------------------------------------------------------------- generators
 
-var metaKeys = []string{"k", "role", "x y", `q"uote`, "é∑"}
+var metaKeys = []string{"k", "role", "x y", `q"uote`, "é∑", "100%", "pro%20mo"}
 
 func genMeta(t *rapid.T, label string) map[string]string {
 	n := rapid.IntRange(0, 2).Draw(t, label+"N")
@@ -777,6 +777,12 @@ func (w *World) GenTimestamp(t *rapid.T, l *LState) time.Time {
 		}
 	case 3:
 		return now.Add(time.Duration(rapid.IntRange(1, 48).Draw(t, "hoursAhead")) * time.Hour)
+	case 4:
+		if rapid.Bool().Draw(t, "beyondTheWallClock") {
+			// post-dated far ahead: later than the wall clock of the machine running the check, whatever the stand-in's
+			// clock says (code that consults time.Now() instead of the database sees these as "not yet")
+			return time.Date(2090, 1, 1, 0, 0, 0, 0, time.UTC).Add(time.Duration(rapid.IntRange(0, 2000).Draw(t, "hoursInto2090")) * time.Hour)
+		}
 	}
 	return time.Time{}
 }
